@@ -67,9 +67,9 @@ P = {
 # dimensions added after the seeded rounds (DESIGN.md §11.5); appended to the technique text of each check
 EXTRA = {
  "C01": "histories (related predecessor builds incl. one that panics mid-encoding, builder warm-up with any mode / only changed setters re-sent); payload families UTF-8 text, special-token dictionary, class runs, extreme whole-symbol textures, codeword-steered block look-alikes; forced modes the input may not fit and lengths just beyond a pinned version's capacity (a symbol, if returned, must decode); row view (Index) == data",
- "C02": "block look-alike payloads (zero / constant / near-copy / generator-multiple blocks), thread histories through the shared generators",
+ "C02": "the shared generated parts (random cells, tie sweep, steered matrices, block look-alikes: padding look-alikes, zero / constant / near-copy / generator-multiple / prefix-plus-own-remainder blocks, realistic payloads, extreme textures) with and without generated corruption",
  "C03": "side == 17+4 x the REPORTED version; every Clone copy (clone, clone_from onto larger and smaller symbols) equals the original byte for byte; row view == data; extreme textures and block look-alikes",
- "C04": "every statement also on Clone copies (incl. clone_from onto a symbol of another level/mask/mode); first mode indicator must exist and be the reported mode; wasm entry points",
+ "C04": "every statement also on Clone copies (incl. clone_from onto a symbol of another level/mask/mode); the first four bits of the data stream are the reported mode's indicator (read directly, also when the rest does not parse); wasm entry points",
  "C05": "wasm exports qr/qr_svg with forced versions around the minimum; every special token at every Byte threshold -1..+4; class runs",
  "C06": "well-formed UTF-8 text at version borders; special tokens; block look-alikes",
  "C07": "division HISTORIES on one thread with call counts around 2^k; symbol-level check on block look-alikes (padding look-alikes, near-copies)",
